@@ -1,5 +1,7 @@
-import Driver.Util
-/-! `drv_codec`: not built yet -/
+import Driver.CodecDrv
+open Driver
+
 def main : IO UInt32 := do
-  IO.eprintln "drv_codec: engine not implemented"
-  return 2
+  let lines ← readLines (← IO.getStdin) #[]
+  CodecDrv.main lines
+  return 0
